@@ -23,6 +23,7 @@ def pB : Path := ⟨[], 2, false⟩      -- m2.koto
 def pC : Path := ⟨[], 3, false⟩      -- m3.koto   (imports itself)
 def pD : Path := ⟨[], 4, false⟩      -- m4.koto   (fails in @main after importing m2)
 def pE : Path := ⟨[], 6, false⟩      -- m6.koto   (re-exports parts of m2 with an unpacking export)
+def pF : Path := ⟨[], 7, false⟩      -- m7.koto   (exports set_flag = || export k60 = 1 and get_flag = || k60)
 
 def itm (n : Name) (a : Option Name := none) : Item := { name := n, as_ := a }
 def rf (n : Name) : Ref := { name := n }
@@ -39,6 +40,7 @@ def fsEx : FS := fun p =>
   else if p = pE then some (.ok [.act (.print 10), .act (.importMods [itm 2]),
       -- `export k63, {k60, k61 as k62}, _ = 1, m2, 5`
       .act (.assignPat true [.id 63, .mapPat [⟨60, some 60⟩, ⟨61, some 62⟩], .ignored] [.lit 1, .ref 2, .lit 5])])
+  else if p = pF then some (.ok [.exportFn 70 11 [.export_ 60 1], .exportFn 71 12 [.show 13 60]])
   else none
 
 def cfgEx : Cfg := { runImportTests := true, hostTests := false }
@@ -148,7 +150,7 @@ theorem resolution_dotted_witness :
 module's own statements run in a frame whose directory is the folder of the module file -/
 theorem resolution_relative (cfg : Cfg) (fs : FS) (fuel : Nat) (p : Path) (s : St) :
     loadModule fs (runUnit cfg fs (fuel + 1)) p s =
-      (match runBody cfg fs (runUnit cfg fs fuel) cfg.runImportTests { dir := p.folder } (bodyOf fs p)
+      (match runBody cfg fs (runUnit cfg fs fuel) cfg.runImportTests { dir := p.folder, self := some p } (bodyOf fs p)
           (emit (.enter p) { s with cache := upd s.cache p (some .inProgress), exports := {} }) with
        | none => none
        | some (none, st3) =>
@@ -234,7 +236,7 @@ theorem no_placeholder_left {cfg : Cfg} {fs : FS} {fuel : Nat} {op : Op} {s s' :
 -- are what they were, and importing m4 again runs it again (and fails again)
 example : (finalSt cfgEx fsEx 5 [opTry 4 20, opTry 4 21] init).map
       (fun s => ((s.cache pD).isNone, doneB s.cache pB, s.exports.data.length, s.out.count (.enter pD), s.out.count (.enter pB)))
-    = some (true, true, 0, 2, 1) := by decide
+    = some (true, true, 0, 2, 1) := by decide +kernel
 
 /-! ## run_once -/
 
@@ -352,12 +354,12 @@ theorem export_visible_module {cfg : Cfg} {fs : FS} {rec : Runner} (k : Name) (v
     ∃ fr' s', execAct cfg fs rec (.export_ k v) fr s = some (none, fr', s')
       ∧ readId cfg fr' s' k = some (.int v)
       ∧ lookup k s'.exports.data = some (.int v)
-      ∧ ∀ fr2 : Frame, fr2.wild = [] → nonLocal cfg fr2 s' k = some (.int v) := by
+      ∧ ∀ fr2 : Frame, fr2.wild = [] → fr2.home = none → nonLocal cfg fr2 s' k = some (.int v) := by
   refine ⟨bind k (.int v) fr, setData k (.int v) s, rfl, ?_, ?_, ?_⟩
   · simp [readId, Modules.bind, lookup_insert_self]
   · simp [setData, lookup_insert_self]
-  · intro fr2 hw
-    simp [nonLocal, hw, wildGet, setData, lookup_insert_self]
+  · intro fr2 hw hh
+    simp [nonLocal, modExports, hh, hw, wildGet, setData, lookup_insert_self]
 
 /-- … and it stays visible: later statements that do not export `k` again keep the entry (nested
 imports included, which swap the exports map and put it back) -/
@@ -372,7 +374,7 @@ theorem export_visible_later {cfg : Cfg} {fs : FS} {rec : Runner} (k : Name) (ac
 exactly the exports map the module had when its `@main` returned -/
 theorem export_visible_importer {fs : FS} {rec : Runner} {p : Path} {s s' : St} {v : V}
     (h : loadModule fs rec p s = some (.ok v, s')) :
-    v = .mref p ∧ ∃ s3, rec p.folder (bodyOf fs p)
+    v = .mref p ∧ ∃ s3, rec (some p) p.folder (bodyOf fs p)
         (emit (.enter p) { s with cache := upd s.cache p (some .inProgress), exports := {} }) = some (none, s3)
       ∧ resolve s'.cache (.mref p) = some s3.exports.data := by
   unfold loadModule at h
@@ -418,6 +420,24 @@ example : touches false false false 62 (.assignPat true [.id 63, .mapPat [⟨60,
 -- m6 does `export k63, {k60, k61 as k62}, _ = 1, m2, 5`: an importer sees all three bound ids
 example : (finalSt cfgEx fsEx 7 [opImport 6] init).map (fun s => resolve s.cache (.mref pE))
     = some (some [(63, .int 1), (60, .int 7), (62, .int 9)]) := by decide
+
+/-- inside an exported function that is called after its module completed, non-local reads consult the
+DEFINING module's exports map (wildcard imports of the function's frame first) -/
+theorem function_reads_home_exports (cfg : Cfg) (fr : Frame) (st : St) (p : Path) (e : Exports) (k : Name)
+    (hh : fr.home = some p) (hd : st.cache p = some (.done e)) (hw : fr.wild = []) :
+    nonLocal cfg fr st k = ((lookup k e.data).orElse fun _ => cfg.prelude k) := by
+  simp [nonLocal, modExports, hh, hd, hw, wildGet]
+
+/-- Negation witness (finding F-C18-6): `export` inside a function writes to the VM's ACTIVE exports
+map — the caller's — not to the exports map of the module that defines the function. m7 exports
+`k70 = || export k60 = 1` and `k71 = || k60`; after the host calls `m7.k70()` the entry `k60` is in the
+HOST's exports and not in m7's, so m7's own later code (`m7.k71()`) does not see it:
+"'k60' not found". -/
+theorem function_export_goes_to_caller_witness :
+    (hostRun cfgEx fsEx 5 { dir := [], exportTop := false, body :=
+        [.act (.importMods [itm 7]), .callMember 7 70, .callMember 7 71] } init).map
+      (fun r => (r.1, lookup 60 r.2.exports.data, (resolve r.2.cache (.mref pF)).map (fun d => lookup 60 d)))
+    = some (some .idNotFound, some (.int 1), some none) := by decide +kernel
 
 /-! ## reassign_keeps_export -/
 
@@ -705,13 +725,14 @@ theorem fuel_adequate_canonical (cfg : Cfg) (fs : FS) (files : List Path) (hc : 
 theorem fuel_adequate_unit (cfg : Cfg) (fs : FS) (keys : List Path)
     (hkeys : ∀ dir r p, findModule cfg fs dir r = some p → p ∈ keys) (n m : Nat)
     (hn : keys.length < n) (hm : keys.length < m)
-    (dir : List Name) (body : List TAct) (s : St) (hinv : Inv s) :
-    runUnit cfg fs n dir body s = runUnit cfg fs m dir body s ∧ runUnit cfg fs n dir body s ≠ none :=
-  runUnit_adequate cfg fs keys hkeys keys.length n m hn hm dir body s hinv
+    (self : Option Path) (dir : List Name) (body : List TAct) (s : St) (hinv : Inv s) :
+    runUnit cfg fs n self dir body s = runUnit cfg fs m self dir body s
+      ∧ runUnit cfg fs n self dir body s ≠ none :=
+  runUnit_adequate cfg fs keys hkeys keys.length n m hn hm self dir body s hinv
     (by have := avail_le_length keys s; omega)
 
 -- non-vacuity: the example file system has its files at six paths
-example : ∀ p, fsEx p ≠ none → p ∈ [pA, pAdir, pB, pC, pD, pE] := by
+example : ∀ p, fsEx p ≠ none → p ∈ [pA, pAdir, pB, pC, pD, pE, pF] := by
   intro p h
   unfold fsEx at h
   by_cases h1 : p = pA
@@ -726,6 +747,8 @@ example : ∀ p, fsEx p ≠ none → p ∈ [pA, pAdir, pB, pC, pD, pE] := by
   · simp [h5]
   by_cases h6 : p = pE
   · simp [h6]
-  simp [h1, h2, h3, h4, h5, h6] at h
+  by_cases h7 : p = pF
+  · simp [h7]
+  simp [h1, h2, h3, h4, h5, h6, h7] at h
 
 end KotoVerif.C18
